@@ -76,6 +76,21 @@ local
     }
 
     #[test]
+    fn test_tree_text_is_lossless_on_error_paths() {
+        for code in [
+            "local a = 1\0 local b = 2\n",
+            "{,then",
+            "d--region\no",
+            "r---@y\n---@d\nu",
+            "global!global-",
+            "|end",
+        ] {
+            let tree = LuaParser::parse(code, ParserConfig::default());
+            assert_eq!(tree.get_red_root().text().to_string(), code);
+        }
+    }
+
+    #[test]
     fn test_bad_syntax() {
         let code = r#"
 JsonData.this[] = nil
